@@ -1907,7 +1907,8 @@ static void data_hists(void)
     ADD(h, s_dconvert, 0 * 4 + 2, VPT_S, "vnadata_convert"); /* fz0 -> z0 */
 
     /* save / load per file type */
-    static const struct { int file, shape, fmt, fz0; const char *what; } sl[] = {
+    static const struct { int file, shape, fmt, fz0; const char *what;
+	int nock; } sl[] = {
 	{ 0, 0, 0, 0, ".s2p SdB" },
 	{ 0, 0, 7, 0, ".s2p Zri" },
 	{ 1, 1, 4, 0, ".ts 3x3 Sma" },
@@ -1922,6 +1923,11 @@ static void data_hists(void)
 	/* no format set at all: the save installs the default one */
 	{ 2, 0, -1, 0, ".npd, no format set" },
 	{ 0, 0, -1, 0, ".s2p, no format set" },
+	/* saved without a vnadata_cksave first: the object's file type is
+	   still the one it was made with when the save begins */
+	{ 0, 0, 7, 0, ".s2p Zri, not checked first", 1 },
+	{ 0, 0, 0, 0, ".s2p SdB, not checked first", 1 },
+	{ 1, 0, 8, 0, ".ts 2x2 Sri, not checked first", 1 },
     };
     for (size_t i = 0; i < sizeof(sl) / sizeof(sl[0]); ++i) {
 	h = new_hist('D', "vnadata: save and load %s", sl[i].what);
@@ -1938,8 +1944,14 @@ static void data_hists(void)
 	}
 	if (sl[i].fmt >= 0)
 	    ADD(h, s_dformat, 0, sl[i].fmt, "vnadata_set_format");
-	ADD(h, s_dcksave, 0, sl[i].file, "vnadata_cksave");
-	ADD(h, s_dsave, 0, sl[i].file, "vnadata_save");
+	if (!sl[i].nock)
+	    ADD(h, s_dcksave, 0, sl[i].file, "vnadata_cksave");
+	/* a save writes a file: the object is after a failed save what
+	   it was before it (type, shape, data, z0, format, file type);
+	   a format without parameter letter is resolved in the object by
+	   the save, failed or not: those are judged by the repetition */
+	add(h, s_dsave, 0, sl[i].file, "vnadata_save",
+		sl[i].fmt == 5 ? 0 : F_KEEPS);
 	ADD(h, s_dalloc, 1, 0, "vnadata_alloc");
 	ADD(h, s_dload, 1, sl[i].file, "vnadata_load");
 	ADD(h, s_dload, 0, sl[i].file, "vnadata_load");	/* into used object */
